@@ -44,8 +44,10 @@ func New(config ...Config) fiber.Handler {
 			allowAllOrigins = true
 			break
 		}
+		// the wildcard is located in the entry the offsets below are applied to: the trimmed one
+		origin = utils.Trim(origin, ' ')
 		if i := strings.Index(origin, "://*."); i != -1 {
-			trimmedOrigin := utils.Trim(origin[:i+3]+origin[i+4:], ' ')
+			trimmedOrigin := origin[:i+3] + origin[i+4:]
 			isValid, normalizedOrigin := normalizeOrigin(trimmedOrigin)
 			if !isValid {
 				panic("[CORS] Invalid origin format in configuration: " + trimmedOrigin)
